@@ -18,6 +18,7 @@ from spyne.protocol.json import JsonDocument
 class Base(ComplexModel):
     __namespace__ = 'tns'
     a = Integer
+    u = Unicode
 
 
 class Sub(Base):
@@ -172,6 +173,47 @@ def json_kinds(sx, p):
     if slot == 'bases' and got is not None:
         return isinstance(got, list) and all(x is None or isinstance(x, Base) for x in got)
     return _admissible(got, ADMISSIBLE[slot])
+
+
+NESTED = {'base.a': (int,), 'base.u': (str,), 'bases[0].a': (int,), 'bases[0].u': (str,), 'bases[0]': (Base,)}
+
+
+@harness('C04', params=[(pos, kind) for pos in sorted(NESTED) for kind in KINDS], label=lambda p: 'pos=%s kind=%s' % p,
+         functions=['spyne.protocol.dictdoc.hier.HierDictDocument._doc_to_object',
+                    'spyne.protocol.dictdoc.hier.HierDictDocument._from_dict_value',
+                    'spyne.protocol.dictdoc.hier.HierDictDocument.validate'],
+         bounds={'document': 'a field of a nested object, a field of an array element, or an array element itself '
+                             'carries a value of each JSON kind (payload symbolic)'})
+def json_kinds_nested(sx, p):
+    """the same guarantee at nested positions: inside a nested object and inside array elements"""
+    pos, kind = p
+    v = _value_of_kind(sx, kind, 'v')
+    if pos.startswith('base.'):
+        doc = {'base': {pos[5:]: v}}
+    elif pos == 'bases[0]':
+        doc = {'bases': [v, {'a': 1}]}
+    else:
+        doc = {'bases': [{pos.split('.')[1]: v}, {'a': 1}]}
+    try:
+        out = run_soft(lambda: JSOFT._doc_to_object(CTX, Holder, doc, JSOFT.validator))
+    except Exception as e:
+        sx.outside('non-fault exception %s escapes (counted under C10)' % type(e).__name__)
+    sx.observe('accepted', out.accepted)
+    if not out.accepted:
+        return is_client_validation_fault(out.fault)
+    h = out.value
+    if pos.startswith('base.'):
+        got = getattr(h.base, pos[5:]) if isinstance(h.base, Base) else h.base
+        if not isinstance(h.base, Base):
+            return _admissible(h.base, (Base,))
+    elif pos == 'bases[0]':
+        got = h.bases[0] if h.bases else None
+    else:
+        e0 = h.bases[0] if h.bases else None
+        if not isinstance(e0, Base):
+            return _admissible(e0, (Base,))
+        got = getattr(e0, pos.split('.')[1])
+    return _admissible(got, NESTED[pos])
 
 
 @harness('C04', params=[4, 3, 6, 5], label=lambda n: 'keylen=%d' % n,
